@@ -512,9 +512,20 @@ def r08_7(ctx):
     ctx.check("routine transformer shares the caller's macro table", any(t.endswith(".macros") and v2 == "self.transformer.macros" for t, v2 in stores) or kw.get("macros") == "self.transformer.macros",
               "transformer.macros = self.transformer.macros (or handed to the constructor)", str(stores)[:120], w)
     ad = idx.func("Compiler.add_sub_routine")
-    evs = [U(n) for n in ast.walk(ad.node) if isinstance(n, (ast.Assign, ast.Expr))]
-    ok = any(e.startswith("self.sub_routines[name] = sub_routine") for e in evs) and any("self.transformer.update_sub_routines(self.sub_routines)" in e for e in evs) and any("self.compile_sub_routine(name, ret_type, params, body)" in e for e in evs)
-    ctx.check("add_sub_routine stores the routine under its name and publishes the registry", ok, "sub_routines[name] = compile_sub_routine(...); transformer.update_sub_routines(...)", str(evs)[:200], fn_where(idx, ad))
+    params_ad = [a.arg for a in ad.node.args.args[1:]]
+    bad = []
+    pn = 0
+    for q in paths_of(ad.node):
+        if q.outcome == "raise":
+            continue
+        pn += 1
+        evs = [(e.kind, U(e.node), U(e.extra) if e.kind == "store" and isinstance(e.extra, ast.AST) else None) for e in q.events if e.kind in ("call", "store")]
+        st = [k for k, (kind, tgt, val) in enumerate(evs) if kind == "store" and tgt == f"self.sub_routines[{params_ad[0]}]" and val == f"self.compile_sub_routine({', '.join(params_ad)})"]
+        pub = [k for k, (kind, tgt, val) in enumerate(evs) if kind == "call" and tgt.endswith("update_sub_routines(self.sub_routines)")]
+        if not (st and pub and st[0] < pub[0]):
+            bad.append(str([t for _, t, _ in evs])[:200])
+    ctx.check("add_sub_routine stores the routine under its name and publishes the registry", pn >= 1 and not bad, "sub_routines[name] = compile_sub_routine(<all parameters>); then transformer.update_sub_routines(...)",
+              "; ".join(bad[:2]) or "ok", fn_where(idx, ad))
     c_type_table(ctx)
     fs = idx.func("split_var_decl")
     for decl, exp in (("uint32_t t", ("uint32_t", "t")), ("const HexOp *RxV", ("const HexOp *", "RxV")), ("HexInsnPktBundle *bundle", ("HexInsnPktBundle *", "bundle")), ("int n", ("int", "n"))):
